@@ -23,7 +23,7 @@ TECHNIQUE = ("static analysis: index-space (caller index vs NL position) type in
 LEVEL_TEXT = ("Decided: every variable index that reaches a writer is VPerm of a caller index, every caller "
               "array read in a position-ordered feed is subscripted with VPermInv of the position, solution "
               "values and variable suffixes are stored at vperm_inv_[position]; the permutation arrays are "
-              "mutually inverse by construction; each header class counter is incremented exactly once for "
+              "mutually inverse by construction and exported for every variable index; each header class counter is incremented exactly once for "
               "exactly the variables the sort key puts in that class, in NL's class order; all traversals of "
               "the Hessian visit the same (row, entry) pairs with the same factor 0.5; optional arrays are "
               "checked before use.  Not decided: numerical equality of objective and row values after "
